@@ -128,10 +128,18 @@ func init() {
 		}
 		w.E.mu.Unlock()
 		if !seen {
-			mdl, _, ok := w.model(nil)
+			mdl, vals, ok := w.model(nil)
+			if ok && len(w.hashes) > 0 {
+				env := w.repairModel(vals)
+				mdl = map[string]string{}
+				for k, v := range env {
+					mdl[k] = fmt.Sprintf("0x%x", v)
+				}
+			}
 			w.E.mu.Lock()
 			if ok {
 				w.E.res.Reach[label].Model = mdl
+				w.E.res.Reach[label].Choices = append([]int{}, w.choices...)
 			} else {
 				// not witnessed by a model: forget, a later path may witness it
 				delete(w.E.res.Reach, label)
